@@ -103,12 +103,12 @@ def isAsmBuiltinName (n : String) : Bool := n == "incbin" || n == "incbinstr" ||
 def evalVariable (st : Static) (defs : Defs) (ctx : RCtx) (level : Nat) (path : List String) : Except String Value :=
   let builtin : Option (Except String Value) :=
     if level == 0 then
-      match path.head? with
-      | some n =>
+      match path with
+      | [n] =>
         if n == "$" || n == "pc" then some ((evalAddress defs ctx ctx.canGuess).map fun a => .int ⟨a, none⟩)
         else if isAsmBuiltinName n then some (.ok (.asmBuiltin n))
         else none
-      | none => none
+      | _ => none
     else none
   match builtin with
   | some r => r
